@@ -53,36 +53,43 @@ def twin_specs(tier):
 
 def check_twin(spec, acc):
     s_sync = fam.norm(dict(spec, is_async=False))
-    s_async = fam.norm(dict(spec, is_async=True))
+    variants = [("async", fam.norm(dict(spec, is_async=True)))]
+    if spec.get("style", "def") == "def":
+        # ... and the async rendering whose conditions and captures are coroutine functions themselves
+        variants.append(("async+coroutine conditions", fam.norm(dict(spec, is_async=True, style="adef"))))
     key0 = json.dumps(spec, sort_keys=True)
-    p1, p2 = fam.Program(s_sync), fam.Program(s_async)
+    p1 = fam.Program(s_sync)
+    progs = [(tag, sa, fam.Program(sa)) for tag, sa in variants]
     try:
         d1 = type(p1.def_exc).__name__ if p1.def_exc else None
-        d2 = type(p2.def_exc).__name__ if p2.def_exc else None
-        if d1 or d2:
-            acc.case(("def", key0), True, 1, (d1, d2))
-            if d1 != d2:
-                acc.violation(core.Violation(PROP, "definition_differs", fam.feat(s_async), "sync: {!r} async: {!r}".format(p1.def_exc, p2.def_exc),
-                                             spec={"spec": spec}))
+        ds = [type(p.def_exc).__name__ if p.def_exc else None for _, _, p in progs]
+        if d1 or any(ds):
+            acc.case(("def", key0), True, 1, (d1, tuple(ds)))
+            for (tag, sa, p2), d2 in zip(progs, ds):
+                if d1 != d2:
+                    acc.violation(core.Violation(PROP, "definition_differs", fam.feat(sa), "sync: {!r} {}: {!r}".format(p1.def_exc, tag, p2.def_exc),
+                                                 spec={"spec": spec}))
             return
         names = fam.relevant_names(s_sync)
         for truth in fam.limited_truths(names, max_full=5, max_falsy=2):
             for bm, mut in (("ret_obj", "none"), ("ret_none", "append"), ("raise_exc", "none"), ("raise_base", "append"), ("ret_zero", "rebind"), ("recurse", "none")):
                 l1, o1 = p1.call(truth, bm, mut, "pos")
-                l2, o2 = p2.call(truth, bm, mut, "pos")
-                acc.case((key0, tuple(sorted(truth.items())), bm, mut), bool(names), len(l1) + len(l2), (o1, o2 == o1))
-                if l1 != l2 or o1 != o2:
-                    d = fam.first_diff(l1, l2)
-                    acc.violation(core.Violation(
-                        PROP, "twin_logs_differ" if l1 != l2 else "twin_outcomes_differ", fam.feat(s_async, "pos", bm, mut),
-                        "falsy={} first difference {}\n sync : {} -> {}\n async: {} -> {}".format(
-                            [k for k, v in truth.items() if not v], d, l1, o1, l2, o2),
-                        spec={"spec": spec, "truth": truth, "body_mode": bm, "mut": mut},
-                        script=fam.replay_script(s_async, truth, bm, mut, "pos")))
+                for tag, sa, p2 in progs:
+                    l2, o2 = p2.call(truth, bm, mut, "pos")
+                    acc.case((key0, tag, tuple(sorted(truth.items())), bm, mut), bool(names), len(l1) + len(l2), (o1, o2 == o1))
+                    if l1 != l2 or o1 != o2:
+                        d = fam.first_diff(l1, l2)
+                        acc.violation(core.Violation(
+                            PROP, "twin_logs_differ" if l1 != l2 else "twin_outcomes_differ", fam.feat(sa, "pos", bm, mut),
+                            "falsy={} first difference {}\n sync : {} -> {}\n {}: {} -> {}".format(
+                                [k for k, v in truth.items() if not v], d, l1, o1, tag, l2, o2),
+                            spec={"spec": spec, "truth": truth, "body_mode": bm, "mut": mut},
+                            script=fam.replay_script(sa, truth, bm, mut, "pos")))
         acc.sample({"twin": spec}, cap=2)
     finally:
         p1.close()
-        p2.close()
+        for _, _, p2 in progs:
+            p2.close()
 
 
 # ---------------------------------------------------------------------------------------------
